@@ -333,3 +333,30 @@ type quietTB struct {
 }
 
 func (q *quietTB) Errorf(format string, args ...interface{}) {}
+
+// Pinned searches seeded cases (no library) until a listed known finding with
+// the given signature has been demonstrated, at most max cases. It keeps the
+// KNOWN-FINDING line of a finding that the random campaign only meets now and then
+// visible in every run. Any other failure it meets is reported as usual.
+func Pinned(t *testing.T, prop, check string, st *ev.Stats, sig string, max int, body func(c *Ctx)) {
+	defer st.Write()
+	if IsKnown(prop, sig) == nil {
+		return // nothing listed (repaired): nothing to pin
+	}
+	want := "[" + sig + "]"
+	for i := 0; i < max; i++ {
+		c := &Ctx{Prop: prop, Check: check, TB: t, St: st}
+		c.Ch = choose.NewRecorder(seeded{choose.NewSplitMix(uint64(424243 + i*7919))})
+		c.runBody(body)
+		if t.Failed() {
+			return
+		}
+		for _, k := range st.Known {
+			if strings.HasSuffix(k, want) {
+				st.Add("pinned_cases_until_demonstrated", int64(i+1))
+				return
+			}
+		}
+	}
+	st.Add("pinned_not_demonstrated", 1)
+}
